@@ -3,6 +3,8 @@ package introspection
 import (
 	"fmt"
 
+	"github.com/ccbrown/api-fu/graphql/ast"
+	"github.com/ccbrown/api-fu/graphql/parser"
 	"github.com/ccbrown/api-fu/graphql/schema"
 )
 
@@ -155,6 +157,10 @@ func (d *SchemaData) GetSchemaDefinition() (*schema.SchemaDefinition, error) {
 			def.Name = t.Name
 			def.Description = t.Description
 			def.Fields = map[string]*schema.InputValueDefinition{}
+			// Input values of this type may have defaults, which requires a result coercion.
+			def.ResultCoercion = func(v interface{}) (map[string]interface{}, error) {
+				return nil, fmt.Errorf("%v cannot be serialized", def.Name)
+			}
 			for _, field := range t.InputFields {
 				if fieldDef, err := field.getInputValueDefinition(types); err != nil {
 					return nil, err
@@ -298,6 +304,9 @@ type InputValueData struct {
 	Name        string
 	Description string
 	Type        TypeData
+
+	// The default value as a GraphQL literal, or nil if the input value has no default.
+	DefaultValue *string
 }
 
 func (d InputValueData) getInputValueDefinition(types map[string]schema.NamedType) (*schema.InputValueDefinition, error) {
@@ -305,10 +314,24 @@ func (d InputValueData) getInputValueDefinition(types map[string]schema.NamedTyp
 	if err != nil {
 		return nil, err
 	}
-	return &schema.InputValueDefinition{
+	ret := &schema.InputValueDefinition{
 		Description: d.Description,
 		Type:        t,
-	}, nil
+	}
+	if d.DefaultValue != nil {
+		// The types of the resulting definition have no coercion functions, so the default cannot
+		// be coerced to a Go value. The parsed literal is kept instead (or the text itself if it
+		// is not a valid literal). This is enough for validation, which only needs to know whether
+		// there is a default and whether it is null.
+		if value, errs := parser.ParseValue([]byte(*d.DefaultValue)); len(errs) > 0 {
+			ret.DefaultValue = *d.DefaultValue
+		} else if ast.IsNullValue(value) {
+			ret.DefaultValue = schema.Null
+		} else {
+			ret.DefaultValue = value
+		}
+	}
+	return ret, nil
 }
 
 type EnumValueData struct {
